@@ -126,3 +126,14 @@ Theorem C08_reference_set_then_remove_is_identity : forall size lg, permitted si
   serialize_node size HashMurmur3 (pad_len size) (BShard t') = serialize_node size HashMurmur3 (pad_len size) (BShard t).
 Proof. exact ref_set_remove_roundtrip. Qed.
 Print Assumptions C08_reference_set_then_remove_is_identity.
+
+(* read as a map with the obvious meaning: a lookup in what the reference wrote after any history returns the link of the latest
+   Set of that name that no later Remove of it followed (`mlast`), and not-found otherwise *)
+Theorem C08_reference_lookup_returns_the_latest_set : forall size lg, permitted size lg ->
+  forall H : bytes -> bytes, (forall k, wf_bytes (H k) = true) -> (forall k, length (H k) = 8%nat) ->
+  forall fuel ops t, Forall (hop_ok H) ops -> hrun lg fuel ops = Ok t ->
+  let root := fst (serialize_node size HashMurmur3 (pad_len size) (BShard t)) in
+  forall key, fst (lookup nofault root (H key) key) =
+              match mlast key ops None with Some e => Ok (e_target e) | None => Err ENotFound end.
+Proof. exact ref_history_lookup_is_latest. Qed.
+Print Assumptions C08_reference_lookup_returns_the_latest_set.
